@@ -39,6 +39,21 @@ theorem lossImg_same (m : Mem) (hist : Recs Bytes) (d : Disk) (hw : d.WF) (hd : 
     ImgSame H kind sz N m hist ((d.applyAll (evs.take j)).powerLoss lose) :=
   powerLoss_allPre_gen _ (fun a b => ImgSame.of_view H kind sz N m hist a b) evs d hw hd hdisc himg hcs j lose
 
+/-- … and at the image the next `open` finds after the reboot -/
+theorem rebootImg_two (m : Mem) (hist : Recs Bytes) (raw : RawOp) (d : Disk) (hw : d.WF) (hd : Dur d)
+    (evs : List Ev) (hdisc : Disc evs) (hcs : AllPre CasSynced d evs)
+    (himg : ∀ j, ImgTwo H kind sz N m hist raw (d.applyAll (evs.take j))) (j : Nat) (lose : FileId → Bool) :
+    ImgTwo H kind sz N m hist raw ((d.applyAll (evs.take j)).reboot lose) :=
+  (lossImg_two H kind sz N m hist raw d hw hd evs hdisc hcs himg j lose).of_view H kind sz N m hist raw _ _
+    (sameView_settle _ (powerLoss_WF _ _ (Disk.applyAll_WF d hw _)))
+
+theorem rebootImg_same (m : Mem) (hist : Recs Bytes) (d : Disk) (hw : d.WF) (hd : Dur d)
+    (evs : List Ev) (hdisc : Disc evs) (hcs : AllPre CasSynced d evs)
+    (himg : ∀ j, ImgSame H kind sz N m hist (d.applyAll (evs.take j))) (j : Nat) (lose : FileId → Bool) :
+    ImgSame H kind sz N m hist ((d.applyAll (evs.take j)).reboot lose) :=
+  (lossImg_same H kind sz N m hist d hw hd evs hdisc hcs himg j lose).of_view H kind sz N m hist _ _
+    (sameView_settle _ (powerLoss_WF _ _ (Disk.applyAll_WF d hw _)))
+
 /-- a settings file that passes the gate is in place AND completely synced -/
 def SettledS (cfg : Config) (d : Disk) : Prop :=
   ∃ f pre, d.get .settings = some f ∧ parseSettings f.data = some (4, pre, cfg.N) ∧
@@ -64,9 +79,16 @@ theorem SettledS.powerLoss (cfg : Config) (d : Disk) (lose : FileId → Bool) (h
     · simp [hs]
     · exact hs
 
+theorem SettledS.settle (cfg : Config) (d : Disk) (h : SettledS cfg d) : SettledS cfg d.settle := by
+  obtain ⟨f, pre, hf, hp, _⟩ := h
+  exact ⟨{ f with synced := f.data.length }, pre, by rw [settle_get, hf]; rfl, hp, rfl⟩
+
+theorem SettledS.reboot (cfg : Config) (d : Disk) (lose : FileId → Bool) (h : SettledS cfg d) :
+    SettledS cfg (d.reboot lose) := (h.powerLoss cfg d lose).settle cfg _
+
 def SmallDOp (P : Bytes → Prop) : DOp → Prop
-  | .put k c | .putLoss k c _ => SmallKey kind k ∧ P c.flatten ∧ c.flatten.length < U64
-  | .remove k | .removeLoss k _ => SmallKey kind k
+  | .put k c | .putLoss k c _ _ => SmallKey kind k ∧ P c.flatten ∧ c.flatten.length < U64
+  | .remove k | .removeLoss k _ _ => SmallKey kind k
   | _ => True
 
 /-- what a loss step needs and yields, for a script that may log one record -/
@@ -81,31 +103,31 @@ theorem loss_step_two (so : StrictOrder kind.lt) (hH : Hash32 H) (P : Bytes → 
     (s : ScriptOK H kind sz N m sys hist d [hist, hist ++ [(m.next, serWalOp raw)]] [spec, spec'] tn' evs)
     (himg : ∀ j, ImgTwo H kind sz N m hist raw (d.applyAll (evs.take j)))
     (hq : ∀ e ∈ evs, e.touches .settings = false)
-    (hspecP : ∀ sx ∈ [spec, spec'], ∀ k c, sx k = some c → P c) (j : Nat) :
-    GateOK H kind cfg d evs j ∧
-    ∀ m2 sc, (lossOpen H cfg d evs j).1 = .ok (m2, sc) →
+    (hspecP : ∀ sx ∈ [spec, spec'], ∀ k c, sx k = some c → P c) (j : Nat) (lose : FileId → Bool) :
+    GateOK H kind cfg d evs j lose ∧
+    ∀ m2 sc, (lossOpen H cfg d evs j lose).1 = .ok (m2, sc) →
       ∃ sys2 hist2 spec2, (spec2 = spec ∨ spec2 = spec') ∧
-        StoreDur H kind sz N m2 sys2 hist2 (lossOpen H cfg d evs j).2 spec2 tn' ∧
-        Roomy kind (b + 1) m2 ∧ SettledS cfg (lossOpen H cfg d evs j).2 := by
+        StoreDur H kind sz N m2 sys2 hist2 (lossOpen H cfg d evs j lose).2 spec2 tn' ∧
+        Roomy kind (b + 1) m2 ∧ SettledS cfg (lossOpen H cfg d evs j lose).2 := by
   have hw := ok.live.sinv.wf
   have t := ok.live.tied
-  have hl := lossImg_two H kind sz N m hist raw d hw ok.dur evs s.disc s.cas himg j (fun _ => true)
-  have hset1 : SettledS cfg ((d.applyAll (evs.take j)).powerLoss (fun _ => true)) :=
-    (hset.frame cfg d hw _ (fun e he => hq e (List.mem_of_mem_take he))).powerLoss cfg _ _
-  have ho : OpenOK H kind cfg ((d.applyAll (evs.take j)).powerLoss (fun _ => true)) :=
+  have hl := rebootImg_two H kind sz N m hist raw d hw ok.dur evs s.disc s.cas himg j lose
+  have hset1 : SettledS cfg ((d.applyAll (evs.take j)).reboot lose) :=
+    (hset.frame cfg d hw _ (fun e he => hq e (List.mem_of_mem_take he))).reboot cfg _ _
+  have ho : OpenOK H kind cfg ((d.applyAll (evs.take j)).reboot lose) :=
     openOK_two H kind sz N so hH b m sys hist d t r hb op raw hraw hconv hop _ hl.rcv hl.sb cfg
       ((hset1.settled cfg _).gate cfg _)
   refine ⟨ho, ?_⟩
   intro m2 sc hres
   obtain ⟨m2', sys2, hist2, sc', spec2, hres', hs2, dur2⟩ := ok.lossOpen H kind sz N so hH P hinj cfg hk hn
-    hsync m sys hist d spec tn _ _ tn' evs s hspecP j ho
-  have hres0 : (openBody H cfg ((d.applyAll (evs.take j)).powerLoss (fun _ => true))).2 = .ok (m2, sc) := hres
+    hsync m sys hist d spec tn _ _ tn' evs s hspecP j lose ho
+  have hres0 : (openBody H cfg ((d.applyAll (evs.take j)).reboot lose)).2 = .ok (m2, sc) := hres
   rw [hres0] at hres'; injection hres' with hres'; injection hres' with e1 _; subst e1
   refine ⟨sys2, hist2, spec2, by simpa using hs2, dur2, ?_, ?_⟩
   · exact roomy_open_two H kind sz N so hH b m sys hist d t r op raw hraw hconv hop _ hl.rcv hl.sb cfg hk hn
       ho m2 sc hres0
-  · have hwi : ((d.applyAll (evs.take j)).powerLoss (fun _ => true)).WF :=
-      powerLoss_WF _ _ (Disk.applyAll_WF d hw _)
+  · have hwi : ((d.applyAll (evs.take j)).reboot lose).WF :=
+      settle_WF _ (powerLoss_WF _ _ (Disk.applyAll_WF d hw _))
     exact hset1.frame cfg _ hwi _ (openBody_settings H cfg _ (hset1.settled cfg _))
 
 /-- the same for a script that logs nothing -/
@@ -117,34 +139,34 @@ theorem loss_step_same (so : StrictOrder kind.lt) (hH : Hash32 H) (P : Bytes →
     (s : ScriptOK H kind sz N m sys hist d [hist] [spec] tn' evs)
     (himg : ∀ j, ImgSame H kind sz N m hist (d.applyAll (evs.take j)))
     (hq : ∀ e ∈ evs, e.touches .settings = false)
-    (hspecP : ∀ k c, spec k = some c → P c) (j : Nat) :
-    GateOK H kind cfg d evs j ∧
-    ∀ m2 sc, (lossOpen H cfg d evs j).1 = .ok (m2, sc) →
-      ∃ sys2 hist2, StoreDur H kind sz N m2 sys2 hist2 (lossOpen H cfg d evs j).2 spec tn' ∧
-        Roomy kind b m2 ∧ SettledS cfg (lossOpen H cfg d evs j).2 := by
+    (hspecP : ∀ k c, spec k = some c → P c) (j : Nat) (lose : FileId → Bool) :
+    GateOK H kind cfg d evs j lose ∧
+    ∀ m2 sc, (lossOpen H cfg d evs j lose).1 = .ok (m2, sc) →
+      ∃ sys2 hist2, StoreDur H kind sz N m2 sys2 hist2 (lossOpen H cfg d evs j lose).2 spec tn' ∧
+        Roomy kind b m2 ∧ SettledS cfg (lossOpen H cfg d evs j lose).2 := by
   have hw := ok.live.sinv.wf
   have t := ok.live.tied
-  have hl := lossImg_same H kind sz N m hist d hw ok.dur evs s.disc s.cas himg j (fun _ => true)
-  have hset1 : SettledS cfg ((d.applyAll (evs.take j)).powerLoss (fun _ => true)) :=
-    (hset.frame cfg d hw _ (fun e he => hq e (List.mem_of_mem_take he))).powerLoss cfg _ _
-  have ho : OpenOK H kind cfg ((d.applyAll (evs.take j)).powerLoss (fun _ => true)) :=
+  have hl := rebootImg_same H kind sz N m hist d hw ok.dur evs s.disc s.cas himg j lose
+  have hset1 : SettledS cfg ((d.applyAll (evs.take j)).reboot lose) :=
+    (hset.frame cfg d hw _ (fun e he => hq e (List.mem_of_mem_take he))).reboot cfg _ _
+  have ho : OpenOK H kind cfg ((d.applyAll (evs.take j)).reboot lose) :=
     openOK_same H kind sz N so hH b m sys hist d t r hb _ hl.rcv hl.sb cfg
       ((hset1.settled cfg _).gate cfg _)
   refine ⟨ho, ?_⟩
   intro m2 sc hres
   obtain ⟨m2', sys2, hist2, sc', spec2, hres', hs2, dur2⟩ := ok.lossOpen H kind sz N so hH P hinj cfg hk hn
-    hsync m sys hist d spec tn _ _ tn' evs s (specsP_single P _ hspecP) j ho
-  have hres0 : (openBody H cfg ((d.applyAll (evs.take j)).powerLoss (fun _ => true))).2 = .ok (m2, sc) := hres
+    hsync m sys hist d spec tn _ _ tn' evs s (specsP_single P _ hspecP) j lose ho
+  have hres0 : (openBody H cfg ((d.applyAll (evs.take j)).reboot lose)).2 = .ok (m2, sc) := hres
   rw [hres0] at hres'; injection hres' with hres'; injection hres' with e1 _; subst e1
   simp only [List.mem_singleton] at hs2; subst hs2
   refine ⟨sys2, hist2, dur2, ?_, ?_⟩
   · exact roomy_open_same H kind sz N so hH b m sys hist d t r _ hl.rcv hl.sb cfg hk hn ho m2 sc hres0
-  · have hwi : ((d.applyAll (evs.take j)).powerLoss (fun _ => true)).WF :=
-      powerLoss_WF _ _ (Disk.applyAll_WF d hw _)
+  · have hwi : ((d.applyAll (evs.take j)).reboot lose).WF :=
+      settle_WF _ (powerLoss_WF _ _ (Disk.applyAll_WF d hw _))
     exact hset1.frame cfg _ hwi _ (openBody_settings H cfg _ (hset1.settled cfg _))
 
 /-- **every guard of `C09_histories_with_power_loss` holds along every history of at most 2^15 - 3
-    operations on reasonable keys** — completed ones and ones cut anywhere by a full power loss —
+    operations on reasonable keys** — completed ones and ones cut anywhere by a power loss, whatever files lose their unsynced bytes —
     from any durable, roomy store whose settings file is in place and synced -/
 theorem durOK_of_small_all (so : StrictOrder kind.lt) (hH : Hash32 H) (P : Bytes → Prop)
     (hinj : Inj H sz P) (cfg : Config) (hk : cfg.kind = kind) (hn : cfg.N = N) (hsync : cfg.sync = true)
@@ -234,7 +256,7 @@ theorem durOK_of_small_all (so : StrictOrder kind.lt) (hH : Hash32 H) (P : Bytes
           ho m2 sc hres)
         (hset1.frame cfg _ (Disk.applyAll_WF d hw _) _ (openBody_settings H cfg _ (hset1.settled cfg _)))
         (by omega) hrest
-    | putLoss key chunks j =>
+    | putLoss key chunks j lose =>
       obtain ⟨hk', hP, hlen⟩ := hop
       have hpo := putOK_of_roomy H kind hH P b m r (by omega) key chunks hk' hP hlen
       have hsum : (chunks.map List.length).sum = chunks.flatten.length := by rw [List.length_flatten]
@@ -251,7 +273,7 @@ theorem durOK_of_small_all (so : StrictOrder kind.lt) (hH : Hash32 H) (P : Bytes
           exact ⟨hk', hH _, by rw [hsum]; exact hlen⟩)
         _ (tn + 1) _ (put_scriptOK H kind sz N so hH P hinj m sys hist d spec tn ok hspecP key chunks hpo)
         (put_img H kind sz N so hH P hinj m sys hist d t tn key chunks hpo) hq
-        (specsP_pair P _ _ hspecP (specP_put P spec hspecP key _ hP)) j
+        (specsP_pair P _ _ hspecP (specP_put P spec hspecP key _ hP)) j lose
       refine ⟨hpo, hg, ?_⟩
       intro m2 sc hres
       obtain ⟨sys2, hist2, spec2, hs2, ok2, r2, set2⟩ := hnext m2 sc hres
@@ -260,14 +282,14 @@ theorem durOK_of_small_all (so : StrictOrder kind.lt) (hH : Hash32 H) (P : Bytes
         · exact hspecP
         · exact specP_put P spec hspecP key _ hP
       exact ih (b + 1) m2 sys2 hist2 _ _ (tn + 1) ok2 hsp2 r2 set2 (by omega) hrest
-    | removeLoss key j =>
+    | removeLoss key j lose =>
       have hro := removeOK_of_roomy kind b m r (by omega) key hop
       obtain ⟨hg, hnext⟩ := loss_step_two H kind sz N so hH P hinj cfg hk hn hsync b m sys hist d spec tn ok r
         (by omega) hset (.remove [key]) (.remove [key]) hro.1 (by simp [fromRaw, hro.2.1])
         (by intro k hh size ho; cases ho)
         _ tn _ (remove_scriptOK H kind sz N so hH m sys hist d spec tn ok key hro)
         (remove_img H kind sz N so hH m sys hist d t key hro) (removeScript_settings H m d key)
-        (specsP_pair P _ _ hspecP (specP_remove P spec hspecP key)) j
+        (specsP_pair P _ _ hspecP (specP_remove P spec hspecP key)) j lose
       refine ⟨hro, hg, ?_⟩
       intro m2 sc hres
       obtain ⟨sys2, hist2, spec2, hs2, ok2, r2, set2⟩ := hnext m2 sc hres
@@ -276,14 +298,14 @@ theorem durOK_of_small_all (so : StrictOrder kind.lt) (hH : Hash32 H) (P : Bytes
         · exact hspecP
         · exact specP_remove P spec hspecP key
       exact ih (b + 1) m2 sys2 hist2 _ _ tn ok2 hsp2 r2 set2 (by omega) hrest
-    | rangeLoss lo hi j =>
+    | rangeLoss lo hi j lose =>
       have hro := rangeOK_of_roomy kind b m r (by omega) lo hi
       obtain ⟨hg, hnext⟩ := loss_step_two H kind sz N so hH P hinj cfg hk hn hsync b m sys hist d spec tn ok r
         (by omega) hset (.remove (rangeKeys m lo hi)) (.remove (rangeKeys m lo hi)) hro.1
         (by simp [fromRaw, hro.2.1]) (by intro k hh size ho; cases ho)
         _ tn _ (range_scriptOK H kind sz N so hH m sys hist d spec tn ok lo hi hro)
         (range_img H kind sz N so hH m sys hist d t lo hi hro) (removeRangeScript_settings H m d lo hi)
-        (specsP_pair P _ _ hspecP (specP_range P spec hspecP _)) j
+        (specsP_pair P _ _ hspecP (specP_range P spec hspecP _)) j lose
       refine ⟨hro, hg, ?_⟩
       intro m2 sc hres
       obtain ⟨sys2, hist2, spec2, hs2, ok2, r2, set2⟩ := hnext m2 sc hres
@@ -292,18 +314,18 @@ theorem durOK_of_small_all (so : StrictOrder kind.lt) (hH : Hash32 H) (P : Bytes
         · exact hspecP
         · exact specP_range P spec hspecP _
       exact ih (b + 1) m2 sys2 hist2 _ _ tn ok2 hsp2 r2 set2 (by omega) hrest
-    | checkpointLoss j =>
+    | checkpointLoss j lose =>
       have hsv : SaveOK kind m.idx := saveOK_of kind _ m.idx rfl r.keys r.ents (by have := r.count; omega)
       have hver : m.next < U64 := by have := r.next.2; omega
       obtain ⟨hg, hnext⟩ := loss_step_same H kind sz N so hH P hinj cfg hk hn hsync b m sys hist d spec tn ok r
         (by omega) hset tn _ (checkpoint_scriptOK H kind sz N so m sys hist d spec tn ok hsv hver)
         (checkpoint_img H kind sz N so m sys hist d t hsv hver) (checkpointScript_settings .explicit m d)
-        hspecP j
+        hspecP j lose
       refine ⟨⟨hsv, hver⟩, hg, ?_⟩
       intro m2 sc hres
       obtain ⟨sys2, hist2, ok2, r2, set2⟩ := hnext m2 sc hres
       exact ih b m2 sys2 hist2 _ _ tn ok2 hspecP r2 set2 (by omega) hrest
-    | reopenLoss j =>
+    | reopenLoss j lose =>
       have hc := closeScript_benign m
       have hsetc := hset.frame cfg d hw _ (closeScript_settings m)
       have ho0 := openOK_of_tied H kind sz N so hH b m sys hist d t r (by omega) (closeScript m)
@@ -316,17 +338,17 @@ theorem durOK_of_small_all (so : StrictOrder kind.lt) (hH : Hash32 H) (P : Bytes
           rcases List.mem_append.mp he with he | he
           · exact closeScript_settings m e he
           · exact openBody_settings H cfg _ (hsetc.settled cfg _) e he)
-        hspecP j
+        hspecP j lose
       refine ⟨ho0, hg, ?_⟩
       intro m2 sc hres
       obtain ⟨sys2, hist2, ok2, r2, set2⟩ := hnext m2 sc hres
       exact ih b m2 sys2 hist2 _ _ tn ok2 hspecP r2 set2 (by omega) hrest
-    | abandonLoss content j =>
+    | abandonLoss content j lose =>
       obtain ⟨hg, hnext⟩ := loss_step_same H kind sz N so hH P hinj cfg hk hn hsync b m sys hist d spec tn ok r
         (by omega) hset (tn + 1) _ (abandoned_scriptOK H kind sz N m sys hist d spec tn ok content)
         (fun j => tied_img H kind sz N m sys hist d t _
           (fun e he => (abandoned_benign tn content e (List.mem_of_mem_take he)).1))
-        (abandoned_settings tn content) hspecP j
+        (abandoned_settings tn content) hspecP j lose
       refine ⟨hg, ?_⟩
       intro m2 sc hres
       obtain ⟨sys2, hist2, ok2, r2, set2⟩ := hnext m2 sc hres
